@@ -12,8 +12,11 @@ pub(crate) fn remove_insignificant_whitespace(xot: &mut Xot, node: Node) {
     }
 }
 
+// XML whitespace only (https://www.w3.org/TR/xml/#NT-S): other Unicode
+// white space such as U+00A0 is character data
 fn is_whitespace(text: &str) -> bool {
-    text.chars().all(|c| c.is_whitespace())
+    text.chars()
+        .all(|c| matches!(c, ' ' | '\t' | '\r' | '\n'))
 }
 
 fn is_significant_text_node(xot: &Xot, node: Node) -> bool {
